@@ -16,6 +16,14 @@ CLAIMS = {
   text="TLC enumerates operator applications over a sort universe (well- and ill-typed, payload grids); every constructor outcome is validated by TLC against CreateContract: a returned formula must be derivable by TypeRule with the reported sort, and an application TypeRule rejects must raise. Output well-typedness of every transformation is a clause of every other contract.",
   note="TypeRule (SmtTypes.tla) written from SMT-LIB and pySMT's documented specifics; function-typed symbols are never arguments",
   tech=TECH + "TLC-enumerated applications replayed on FormulaManager, outcomes validated by TLC against TypeRule", ref="DESIGN.md 3 C03"),
+ "C02": dict(
+  text="TLC enumerates operator tables (every non-UF operator x every value tuple of the value pools; bit-vector operators at every operand value for width <= 3 quick / <= 5 thorough) and two-operator compositions; every EagerModel.get_value / satisfies outcome (total and partial models, with and without completion) is validated by TLC against GetValueContract, whose oracle is the TLA+ Eval.",
+  note="TLA+ Eval transcription of SMT-LIB operator semantics; value pools bounded (Int -7..7, 9 rationals, 12 strings, 4+2 constant arrays)",
+  tech=TECH + "TLC-enumerated (formula, assignment) tables replayed on EagerModel, outcomes validated by TLC against Eval", ref="DESIGN.md 3 C02"),
+ "C06": dict(
+  text="TLC enumerates derived constructor / infix operator x arity x argument shape (incl. Python literals to be promoted, reflected operators, varargs vs list); each built formula is validated by TLC to denote Derived!Named(name) of its arguments under every interpretation of the argument symbols (exhaustive for Bool and BV width <= 3).",
+  note="Derived.tla states the mathematical function per constructor (bvsmod by the mathematical definition, min/max by order, etc.); Int/Real arguments range over carriers",
+  tech=TECH + "TLC-enumerated constructions replayed on FormulaManager/FNode operators, validated by TLC against the named function", ref="DESIGN.md 3 C06"),
 }
 NA_REASON = "check under construction in this round (planned with the same TLA+/TLC technique, see DESIGN.md)"
 
